@@ -12,11 +12,20 @@ from ..typed import Typed
 from .c18 import rule_guess_edition, rule_merge_dedup
 
 
-def rule_placeholder_normalisation(ctx: Ctx):
+def rule_placeholder_normalisation(ctx: Ctx, only: str = None):
     """The `___` page is turned into None where *every* case citation passes:
     in __post_init__ of a class in the MRO of CaseCitation, and every
     __post_init__ override in the hierarchy chains to super()."""
     repo = ctx.repo
+    _ob = ctx.ob
+
+    def ob(rule, *a, **k):
+        # `only`: run for another property that needs just the writer/reader agreement on placeholder spellings
+        if only is None:
+            return _ob(rule, *a, **k)
+        if rule == "R-C16-8":
+            return _ob(only, *a, **k)
+        return None
     m = repo.mod("models")
     sites = []
     for c in citation_classes(repo):
@@ -27,19 +36,19 @@ def rule_placeholder_normalisation(ctx: Ctx):
             if isinstance(n, ast.Assign) and isinstance(n.targets[0], ast.Subscript) and norm(n.targets[0].slice) == "'page'" \
                     and isinstance(n.value, ast.Constant) and n.value.value is None and "groups" in norm(n.targets[0].value):
                 sites.append((c, fn, n))
-    ctx.ob("R-C16-4", "models/placeholder-normalisation:located", len(sites) >= 1,
+    ob("R-C16-4", "models/placeholder-normalisation:located", len(sites) >= 1,
            f"the store `groups['page'] = None` for placeholder pages is located ({[s[0] for s in sites]})", node=sites[0][2] if sites else None, mod=m,
            nontrivial=False)
     for c, fn, n in sites:
         need = [k for k in citation_classes(repo) if repo.is_subclass(k, "CaseCitation")]
         missing = [k for k in need if c not in repo.mro(k)]
-        ctx.ob("R-C16-4", f"models.{c}.__post_init__/covers-case-citations", not missing,
+        ob("R-C16-4", f"models.{c}.__post_init__/covers-case-citations", not missing,
                f"every case citation class must pass through the placeholder normalisation (a short-form '585 U.S., at ___' must hash by identity "
                f"too); not covered: {missing}", node=n, mod=m)
         # the test: a page made only of underscores
         guard = n.parent if isinstance(n.parent, ast.If) else None
         okg = guard is not None and "_+" in norm(guard.test) and "page" in norm(guard.test)
-        ctx.ob("R-C16-4", f"models.{c}.__post_init__/underscore-test", okg,
+        ob("R-C16-4", f"models.{c}.__post_init__/underscore-test", okg,
                "the normalisation is guarded by the all-underscores test on the page group", node=guard or n, mod=m, nontrivial=False)
     # R-C16-8 writer/reader agreement on what a placeholder page is.  The page pattern (writer) says which strings can be a page; __post_init__
     # (reader) turns the placeholder ones into None so that they hash by identity.  Every alternative of the page pattern that contains no
@@ -51,7 +60,7 @@ def rule_placeholder_normalisation(ctx: Ctx):
         guard = n.parent if isinstance(n.parent, ast.If) else None
         pats = [x.value for x in ast.walk(guard.test) if isinstance(x, ast.Constant) and isinstance(x.value, str) and x.value not in ("page", "")] if guard is not None else []
         if pg is None or not pats:
-            ctx.ob("R-C16-8", f"models.{c}.__post_init__/placeholder-spellings", False, "page pattern or placeholder test not found", node=guard or n, mod=m)
+            ob("R-C16-8", f"models.{c}.__post_init__/placeholder-spellings", False, "page pattern or placeholder test not found", node=guard or n, mod=m)
             continue
         accepted = set()
         for p_ in pats:
@@ -67,7 +76,7 @@ def rule_placeholder_normalisation(ctx: Ctx):
                 n_ph += 1
                 if not a <= accepted:
                     loose.append(sorted(a - accepted))
-        ctx.ob("R-C16-8", f"models.{c}.__post_init__/placeholder-spellings", not loose and n_ph >= 1,
+        ob("R-C16-8", f"models.{c}.__post_init__/placeholder-spellings", not loose and n_ph >= 1,
                f"{n_ph} alternative(s) of PAGE_NUMBER_REGEX consist of non-alphanumeric characters only (placeholder pages); the normalisation test {pats} accepts "
                f"{sorted(accepted)}; characters of a placeholder spelling it does not accept: {loose} -- such a page keeps its text, so two different slip "
                "opinions 'N U.S. ----' are equal, hash equal and resolve to one resource", node=guard, mod=m)
@@ -78,7 +87,7 @@ def rule_placeholder_normalisation(ctx: Ctx):
         chains = any(isinstance(x, ast.Call) and norm(x.func) == "super().__post_init__" for x in walk_local(fn))
         # unconditional: a top-level statement of the method
         top = any(isinstance(s, ast.Expr) and isinstance(s.value, ast.Call) and norm(s.value.func) == "super().__post_init__" for s in fn.body)
-        ctx.ob("R-C16-4", f"models.{c}.__post_init__/chains-to-super", chains and top,
+        ob("R-C16-4", f"models.{c}.__post_init__/chains-to-super", chains and top,
                "a __post_init__ override must call super().__post_init__() unconditionally, otherwise groups/metadata/placeholder set-up is skipped",
                node=fn, mod=m)
 
